@@ -92,8 +92,20 @@ def split_chained_compares(tree: ast.AST) -> int:
     return n
 
 
+_PURE_BUILTINS = {"len", "int", "float", "str", "abs", "min", "max", "bool", "tuple", "isinstance"}
+
+
 def _is_boolish(e) -> bool:
-    return isinstance(e, (ast.BoolOp, ast.Compare)) or (isinstance(e, ast.UnaryOp) and isinstance(e.op, ast.Not))
+    """Side-effect-free expression that may be inlined into the adjacent test that is its only
+    reader: comparisons / boolean combinations / arithmetic over names, attributes, subscripts,
+    constants and pure builtins (no other calls, no awaits, no walrus)."""
+    for x in ast.walk(e):
+        if isinstance(x, ast.Call):
+            if not (isinstance(x.func, ast.Name) and x.func.id in _PURE_BUILTINS):
+                return False
+        if isinstance(x, (ast.Await, ast.Yield, ast.YieldFrom, ast.NamedExpr, ast.Lambda, ast.ListComp, ast.SetComp, ast.DictComp, ast.GeneratorExp, ast.Starred)):
+            return False
+    return isinstance(e, (ast.BoolOp, ast.Compare, ast.BinOp, ast.UnaryOp))
 
 
 def _is_log_stmt(st) -> bool:
